@@ -424,4 +424,58 @@ theorem for_pairs_length (R : Rounding) (v : Ver) (op : BinOp) (as bs : List Num
     simp only [forPairs, List.flatMap_cons, List.length_append, List.length_map, List.length_cons] at ih ⊢
     rw [ih]; rw [Nat.add_mul, Nat.one_mul, Nat.add_comm]
 
+/-! ## Empty-sequence operands and the decimal zero -/
+
+/-- on non-empty operands the sequence-level operators are the item-level ones (every theorem above lifts) -/
+theorem nonempty_operands_lift (R : Rounding) (v : Ver) (op : BinOp) (x y : Num) :
+    modelBinE R v op (some x) (some y) = (modelBin R v op x y).map some ∧
+    specBinE R op (some (absNum x)) (some (absNum y)) = (specBin R op (absNum x) (absNum y)).map some :=
+  ⟨rfl, rfl⟩
+
+/-- `+ - * div mod` with an empty-sequence operand (either side, or both) return the empty sequence, as
+XPath 3.1 §3.5 requires, whatever the other operand is -/
+theorem empty_operand_eq_spec (R : Rounding) (v : Ver) (op : BinOp) (hop : op ≠ .idiv) (a b : Option Num)
+    (he : a = none ∨ b = none) :
+    (modelBinE R v op a b).map (Option.map absNum) = specBinE R op (a.map absNum) (b.map absNum) := by
+  rcases he with rfl | rfl
+  · cases b <;> simp [modelBinE, specBinE, hop, Except.map, pure, Except.pure]
+  · cases a <;> simp [modelBinE, specBinE, hop, Except.map, pure, Except.pure]
+
+/-- PARTIAL: `idiv` with an empty operand raises the static-typing error XPST0005 where XPath 3.1 §3.5 gives
+the empty sequence.  (XPath 3.1 §2.3.1 lets an implementation raise XPST0005 for an expression whose static
+type is empty-sequence(), and the repository's test suite pins it: `-3.5 idiv ()`.)  Full statement, false on
+the tree: `empty_operand_eq_spec` without `hop`. -/
+theorem idiv_empty_operand_partial (R : Rounding) (v : Ver) (a b : Option Num) (he : a = none ∨ b = none) :
+    modelBinE R v .idiv a b = .error .XPST0005 ∧ specBinE R .idiv (a.map absNum) (b.map absNum) = .ok none := by
+  rcases he with rfl | rfl
+  · cases b <;> simp [modelBinE, specBinE, throw, throwThe, MonadExceptOf.throw, pure, Except.pure]
+  · cases a <;> simp [modelBinE, specBinE, throw, throwThe, MonadExceptOf.throw, pure, Except.pure]
+
+/-- unary minus/plus, abs, floor, ceiling, round, round-half-to-even of the empty sequence are the empty
+sequence; of an item, the item-level result -/
+theorem unary_empty_eq_spec (R : Rounding) (v : Ver) (op : UnOp) :
+    (modelUnE R v op none).map absNum = specUnE R op none ∧
+    ∀ x, modelUnE R v op (some x) = some (modelUn R v op x) :=
+  ⟨rfl, fun _ => rfl⟩
+
+/-- tests (literals): `() + 1`, `2 div ()` are empty; `() idiv 2` raises XPST0005 -/
+example : modelBinE ieee .v20 .add none (some (.int 1)) = .ok none ∧
+    modelBinE ieee .v31 .div (some (.int 2)) none = .ok none ∧
+    modelBinE ieee .v20 .idiv none (some (.int 2)) = .error .XPST0005 := by
+  refine ⟨rfl, rfl, rfl⟩
+
+/-- xs:decimal has no negative zero: a decimal zero — whatever the sign of the Python `Decimal` that carries
+it, the model has none since `get_operands` converts `op or 0` — is promoted to +0, exactly as F&O casts
+the xs:decimal 0 to xs:double / xs:float; so `1e0 div round(-0.4)` is +INF -/
+theorem decimal_zero_promotes_to_positive_zero (R : Rounding) (s : Nat) (x : Dbl) :
+    coerce R (.dbl x) (.dec 0 s) = (.dbl x, .dbl (.zero false)) ∧
+    coerce R (.flt x) (.dec 0 s) = (.flt x, .flt (.zero false)) ∧
+    XVal.toDbl R.r64 (absNum (.dec 0 s)) = .zero false := by
+  refine ⟨?_, ?_, ?_⟩ <;> simp [coerce, ofDec, rnd, absNum, XVal.toDbl, mkFloat]
+
+/-- test (literals): 1e0 div (decimal zero) = +INF; 1e0 div -0e0 = -INF -/
+example : opDiv ieee .v20 (.dbl (.fin 1)) (.dec 0 1) = .ok (.dbl (.inf false)) ∧
+    opDiv ieee .v20 (.dbl (.fin 1)) (.dbl (.zero true)) = .ok (.dbl (.inf true)) := by
+  refine ⟨by decide +kernel, by decide +kernel⟩
+
 end EPV.C06
